@@ -3,7 +3,7 @@
 From Coq Require Import List QArith ZArith NArith Bool Arith.
 From QmcV Require Import Model.Prog Model.Sse Model.Nav Model.Ham Model.Diagonal Model.Cluster Model.Loop
      Proofs.ProgLemmas Proofs.DiagonalProofs Proofs.SseWeight Proofs.LoopProofs Proofs.HamProofs Proofs.ThermalProofs.
-From QmcV Require Import Model.Diagonal Proofs.Expect Proofs.SweepStationary Proofs.GroupKernel Proofs.TimestepStationary.
+From QmcV Require Import Model.Diagonal Proofs.Expect Proofs.SweepStationary Proofs.GroupKernel Proofs.TimestepStationary Check.Common Proofs.ValidatedPipeline.
 Import ListNotations.
 Open Scope Q_scope.
 
@@ -119,3 +119,12 @@ Theorem C04_diagonal_update_stationary : forall bonds beta L sts,
      == Qsum (map (fun x => sse_weight (qmc_ham bonds) beta (snd x) * f x) (canon (qmc_ham bonds) sts L)))%Q.
 Proof. intros bonds. exact (metropolis_update_stationary_canon (qmc_ham bonds)). Qed.
 Print Assumptions C04_diagonal_update_stationary.
+
+(* unconditional on the complete configuration space for every interaction list whose table is flip-symmetric on
+   its legal operators (the class on which the library enables cluster updates) *)
+Theorem C04_symmetric_pipeline_stationary : forall bonds nv L beta,
+  sym_ham (qmc_ham bonds) -> (0 < beta)%Q -> (0 < h_nbonds (qmc_ham bonds))%nat ->
+  wstat (canon (qmc_ham bonds) (all_substates nv) L) (fun c => sse_weight (qmc_ham bonds) beta (snd c))
+        (pipeline_cfg_v (update_cfg (met_update (qmc_ham bonds) beta))).
+Proof. intros bonds nv L beta Hs. exact (metropolis_pipeline_v_stationary (qmc_ham bonds) Hs nv L beta). Qed.
+Print Assumptions C04_symmetric_pipeline_stationary.
